@@ -18,7 +18,15 @@ RULE = ("one evaluation = one call of a helper (allclose_units, assert_allclose_
         "magnitudes from independently evaluated unit scales and dimension vectors; near-boundary cases (margin below 64 eps of "
         "the narrowest float) are discarded and counted. distinct = (helper, call form, operand kinds, spelling classes of the "
         "units, rtol kind, atol kind, expected verdict) for the comparison helpers and (decorator, template, call form, dimension "
-        "name, argument form, expected verdict) for the decorators")
+        "name, argument form, expected verdict) for the decorators.  History parts (hist-deco, hist-close): one evaluation = one "
+        "such call made as a step of a history over ONE unit symbol that has several definitions (another dimension or another scale "
+        "per user registry, through a to_json/from_json registry, in the default registry vs a user registry, or removed and added "
+        "again in one registry, eagerly or between the calls), the steps calling the same or a new decorated function / the same helper "
+        "first with one definition, then the other, then the first again (both orders, both stated dimensions, positional/keyword/"
+        "return forms; symbol against an ordinary unit, symbol against the same symbol of another registry, atol written in the symbol); "
+        "the verdict is compared with the reference as above and, for every 2nd (thorough: 4th) step and for every step judged wrong, "
+        "with the verdict of the same single call in a process that has executed nothing else; distinct additionally = (scenario, "
+        "stated dimension is this/the other definition, call order, same/new function, position in the history | operand profile)")
 ASSUMPTIONS = (
     "scales/dimensions of every unit spelling come from vf/ref (defs, names, uexpr); a spelling whose unyt base_value or dimension "
     "disagrees with the reference (subject of C02/C14/C20) is dropped from the pools and counted, not judged here",
@@ -48,6 +56,22 @@ ASSUMPTIONS = (
     "computed with inspect.signature on the undecorated function; Unit objects, None and strings as arguments are not judged",
     "returns: the checked values are the returned tuple zipped with the stated dimensions; surplus values or surplus dimensions "
     "are not judged",
+    "histories: the reference scale and dimension of a user symbol are the numbers handed to UnitRegistry.add (dimension vector of "
+    "the named dimension from c19_dimtable); symbols are dataset-style names (code_magnetic, sim_tick, ...) that resolve to nothing "
+    "in the default registry for both the reference resolver and unyt (a clashing symbol is dropped and counted: a user symbol that "
+    "reads as a built-in spelling is C12's subject)",
+    "histories: a value keeps the definition its unit was created with: a quantity made before the symbol was removed and added "
+    "again is judged by the old dimension/scale, one made afterwards by the new one (the statement speaks of the dimension of the "
+    "argument, i.e. of the unit object the value carries); the registry edits themselves are C12/C13's subject",
+    "histories: 'fresh process' = a fork of a server that was forked from the worker before any workload ran (import-time state of "
+    "unyt plus the import of unyt._array_functions; the reference tables of vf.ref are warm, they are not under judgement); it "
+    "builds the one history and makes the one call.  A wrong verdict that is right in the fresh process is keyed history-dependent "
+    "and the key then drops the call form (the mechanism is the history); at most 150 wrong steps per batch are replayed, the rest "
+    "is keyed fresh-not-sampled",
+    "histories, closeness/equality helpers: two operands that carry the same symbol from two registries are compared physically by "
+    "the reference scales (equal definition -> equal units; other scale or other dimension -> different units, whatever the "
+    "spelling); pairs of an SI and a Gaussian electromagnetic dimension are not used there (EM route, as for the pools); only "
+    "default rtol/atol, and rtol=0 with an atol written in the symbol, are driven in histories",
 )
 MIN_EVALS = 3000
 TIMEOUT = 1500
